@@ -2,7 +2,7 @@ SPECIFICATION Spec
 CONSTANTS
   Part = "xslice"
   MaxLen = 6
-  VMag = 6
+  VMag = 4
   Mixed = FALSE
   Dump = TRUE
 INVARIANT NoUB
